@@ -5,15 +5,17 @@
 
 package seat_manager
 
+//@ devirt SeatManager = (*seatManager)
+
 // ---- vocabulary -------------------------------------------------------------------------------
 
 //@ spec occ(sm, s) = sm.SeatData[s] != nil
 //@ spec Live(sm, s) = occ(sm, s) && sm.SeatData[s].IsIn && sm.SeatData[s].HasChips
 //@ spec ActiveAt(sm, s) = Live(sm, s) && !sm.SeatData[s].IsBetweenDealerBB
 //@ spec inRange(sm, s) = 0 <= s && s < sm.MaxSeat
-//@ spec cw(sm, s, k) = (s + k) % sm.MaxSeat
-//@ spec ccw(sm, s, k) = (s + sm.MaxSeat - k) % sm.MaxSeat
-//@ spec cwdist(sm, a, b) = (b - a + sm.MaxSeat) % sm.MaxSeat
+//@ spec cw(sm, s, k) = ite(s + k >= sm.MaxSeat, s + k - sm.MaxSeat, s + k)     // = (s + k) % MaxSeat for 0 <= s < MaxSeat, 0 <= k <= MaxSeat
+//@ spec ccw(sm, s, k) = ite(s - k < 0, s - k + sm.MaxSeat, s - k)
+//@ spec cwdist(sm, a, b) = ite(b >= a, b - a, b - a + sm.MaxSeat)
 //@ spec between(sm, d, b, t) = 0 < cwdist(sm, d, t) && cwdist(sm, d, t) < cwdist(sm, d, b)
 
 // SmBase: shape of a seat manager. Seat keys are exactly 0..MaxSeat-1; occupants are distinct
@@ -21,7 +23,6 @@ package seat_manager
 //@ spec SmBase(sm) = sm != nil && 2 <= sm.MaxSeat && sm.MaxSeat <= 10 && sm.SeatData != nil
 //@     && len(sm.SeatData) == sm.MaxSeat
 //@     && forall(k, 0, sm.MaxSeat, indom(sm.SeatData, k))
-//@     && all(k, indom(sm.SeatData, k) ==> inRange(sm, k))
 //@     && forall(a, 0, sm.MaxSeat, forall(b, 0, sm.MaxSeat, a != b && occ(sm, a) && occ(sm, b)
 //@           ==> sm.SeatData[a] != sm.SeatData[b] && sm.SeatData[a].ID != sm.SeatData[b].ID))
 
@@ -78,3 +79,285 @@ package seat_manager
 //@   requires SmBase(sm) && inRange(sm, startSeatID)
 //@   modifies nothing
 //@   ensures prev-live: firstLiveCCW(sm, startSeatID, r)
+
+//@ func (*seatManager).isBetweenDealerBB
+//@   property C04 C05
+//@   returns r
+//@   config M 2..10 : sm.MaxSeat = M
+//@   requires sm != nil && 2 <= sm.MaxSeat && sm.MaxSeat <= 10 && inRange(sm, dealerSeatID) && inRange(sm, targetSeatID) && -1 <= bbSeatID && bbSeatID < sm.MaxSeat
+//@   modifies nothing
+//@   loop 0 unroll 2 * M
+//@   ensures short-deck: sm.Rule == Rule_ShortDeck ==> !r
+//@   ensures strictly-between: sm.Rule != Rule_ShortDeck && bbSeatID >= 0 ==> (r <==> between(sm, dealerSeatID, bbSeatID, targetSeatID))
+//@   ensures no-bb: sm.Rule != Rule_ShortDeck && bbSeatID == -1 ==> (r <==> dealerSeatID < targetSeatID && targetSeatID < sm.MaxSeat - 1)
+
+//@ func (*seatManager).getActivePlayerCount
+//@   property C04 C05
+//@   returns r
+//@   config M 2..10 : sm.MaxSeat = M, len(sm.SeatData) = M
+//@   requires SmBase(sm)
+//@   modifies nothing
+//@   loop 0 maporder asc
+//@   ensures count: r == cnt(s, 0, sm.MaxSeat, ActiveAt(sm, s))
+
+// ---- representation invariant -----------------------------------------------------------------
+
+//@ spec SmWF(sm) = SmBase(sm)
+//@     && (!sm.IsInit ==> sm.DealerSeatID == -1 && sm.SBSeatID == -1 && sm.BBSeatID == -1)
+//@     && (sm.IsInit ==> sm.Rule == Rule_Default || sm.Rule == Rule_ShortDeck)
+//@     && (sm.IsInit && sm.Rule == Rule_Default ==> inRange(sm, sm.DealerSeatID) && inRange(sm, sm.SBSeatID) && inRange(sm, sm.BBSeatID) && sm.BBSeatID != sm.SBSeatID)
+//@     && (sm.IsInit && sm.Rule == Rule_ShortDeck ==> inRange(sm, sm.DealerSeatID) && sm.SBSeatID == -1 && sm.BBSeatID == -1)
+
+//@ spec liveCount(sm) = cnt(s, 0, sm.MaxSeat, Live(sm, s))
+//@ spec activeCount(sm) = cnt(s, 0, sm.MaxSeat, ActiveAt(sm, s))
+//@ spec isHU(sm) = sm.DealerSeatID == sm.SBSeatID && sm.BBSeatID != sm.DealerSeatID
+//@ spec flagAt(sm, s) = sm.SeatData[s].IsBetweenDealerBB
+
+// ---- rotation (C04) ---------------------------------------------------------------------------
+
+//@ func (*seatManager).rotatePositions
+//@   property C04 C05 C08
+//@   returns err
+//@   config M 2..10 : sm.MaxSeat = M, len(sm.SeatData) = M
+//@   requires SmWF(sm) && sm.IsInit
+//@   modifies sm.DealerSeatID, sm.SBSeatID, sm.BBSeatID, forall(s, 0, sm.MaxSeat, sm.SeatData[s].IsBetweenDealerBB)
+//@   loop 0 maporder asc
+//@   loop 1 maporder asc
+//@   ensures inv: SmWF(sm)
+//@   ensures refused-moves-nothing: err != nil ==> unchanged(sm.DealerSeatID, sm.SBSeatID, sm.BBSeatID)
+//@   ensures refused-iff-few-dealt-in: err != nil <==> activeCount(sm) < 2
+//@   ensures few-live-refused: liveCount(sm) < 2 ==> err != nil
+//@   ensures refused-only-when-few-live: err != nil ==> liveCount(sm) < 2
+//@   ensures bb-next-live: err == nil && sm.Rule == Rule_Default ==> sm.BBSeatID != -1 && firstLiveCW(sm, old(sm.BBSeatID), sm.BBSeatID)
+//@   ensures bb-dealt-in: err == nil && sm.Rule == Rule_Default ==> ActiveAt(sm, sm.BBSeatID)
+//@   ensures sb-is-old-bb: err == nil && sm.Rule == Rule_Default && activeCount(sm) >= 3 ==> sm.SBSeatID == old(sm.BBSeatID)
+//@   ensures dealer-is-old-sb: err == nil && sm.Rule == Rule_Default && activeCount(sm) >= 3 && !old(isHU(sm)) ==> sm.DealerSeatID == old(sm.SBSeatID)
+//@   ensures dealer-after-hu: err == nil && sm.Rule == Rule_Default && activeCount(sm) >= 3 && old(isHU(sm)) ==> sm.DealerSeatID != -1 && firstLiveCCW(sm, sm.SBSeatID, sm.DealerSeatID)
+//@   ensures three-distinct: err == nil && sm.Rule == Rule_Default && activeCount(sm) >= 3
+//@             ==> sm.DealerSeatID != sm.SBSeatID && sm.DealerSeatID != sm.BBSeatID && sm.SBSeatID != sm.BBSeatID
+//@   ensures heads-up: err == nil && sm.Rule == Rule_Default && activeCount(sm) == 2
+//@             ==> sm.DealerSeatID == sm.SBSeatID && sm.DealerSeatID != sm.BBSeatID && inRange(sm, sm.DealerSeatID) && ActiveAt(sm, sm.DealerSeatID)
+//@   ensures stay-dealt-in: forall(s, 0, sm.MaxSeat, old(ActiveAt(sm, s)) ==> ActiveAt(sm, s))
+//@   ensures waiting-flag: err == nil && sm.Rule == Rule_Default && activeCount(sm) >= 3 && !old(isHU(sm)) ==> forall(s, 0, sm.MaxSeat, occ(sm, s) && !old(ActiveAt(sm, s))
+//@             ==> (flagAt(sm, s) <==> between(sm, sm.DealerSeatID, sm.BBSeatID, s)))
+//@   ensures short-deck-next-dealer: err == nil && sm.Rule == Rule_ShortDeck ==> sm.DealerSeatID != -1 && firstActiveCW(sm, old(sm.DealerSeatID), sm.DealerSeatID) && sm.SBSeatID == -1 && sm.BBSeatID == -1
+
+// ---- lookups ----------------------------------------------------------------------------------
+
+//@ spec seatedAt(sm, id, s) = occ(sm, s) && sm.SeatData[s].ID == id
+//@ spec seated(sm, id) = exists(s, 0, sm.MaxSeat, seatedAt(sm, id, s))
+
+//@ func (*seatManager).getSeatPlayer
+//@   property C03 C05
+//@   returns sp, seat, err
+//@   config M 2..10 : sm.MaxSeat = M, len(sm.SeatData) = M
+//@   requires SmBase(sm)
+//@   modifies nothing
+//@   ensures found: err == nil ==> inRange(sm, seat) && seatedAt(sm, playerID, seat) && sp == sm.SeatData[seat]
+//@   ensures not-found: err != nil ==> err == ErrPlayerNotFound && seat == -1 && sp == nil && !seated(sm, playerID)
+
+//@ func (*seatManager).GetSeatID
+//@   property C03
+//@   returns seat, err
+//@   config M 2..10 : sm.MaxSeat = M, len(sm.SeatData) = M
+//@   requires SmBase(sm)
+//@   modifies nothing
+//@   ensures found: err == nil ==> inRange(sm, seat) && seatedAt(sm, playerID, seat)
+//@   ensures not-found: err != nil ==> err == ErrPlayerNotFound && seat == -1 && !seated(sm, playerID)
+
+//@ spec SmShape(sm) = sm != nil && 2 <= sm.MaxSeat && sm.MaxSeat <= 10 && sm.SeatData != nil
+//@     && len(sm.SeatData) == sm.MaxSeat && forall(k, 0, sm.MaxSeat, indom(sm.SeatData, k))
+
+//@ func (*seatManager).IsPlayerBetweenDealerBB
+//@   property C05
+//@   returns r
+//@   config M 2..10 : sm.MaxSeat = M, len(sm.SeatData) = M
+//@   requires SmShape(sm) && (sm.IsInit && sm.Rule != Rule_ShortDeck ==> inRange(sm, sm.DealerSeatID) && -1 <= sm.BBSeatID && sm.BBSeatID < sm.MaxSeat)
+//@   modifies nothing
+//@   ensures not-waiting: !sm.IsInit || sm.Rule == Rule_ShortDeck || !seated(sm, playerID) ==> !r
+//@   ensures waiting: sm.IsInit && sm.Rule != Rule_ShortDeck && sm.BBSeatID >= 0 && seated(sm, playerID)
+//@             ==> exists(s, 0, sm.MaxSeat, seatedAt(sm, playerID, s) && (r <==> between(sm, sm.DealerSeatID, sm.BBSeatID, s)))
+
+//@ func (*seatManager).IsPlayerActive
+//@   property C05 C16
+//@   returns active, err
+//@   config M 2..10 : sm.MaxSeat = M, len(sm.SeatData) = M
+//@   requires SmBase(sm) && !held(sm.mu)
+//@   modifies nothing
+//@   ensures found: err == nil ==> forall(s, 0, sm.MaxSeat, seatedAt(sm, playerID, s) ==> (active <==> ActiveAt(sm, s))) && seated(sm, playerID)
+//@   ensures not-found: err != nil ==> err == ErrPlayerNotFound && !active && !seated(sm, playerID)
+
+// ---- seat lists -------------------------------------------------------------------------------
+
+//@ func (*seatManager).getEmptySeatIDs
+//@   property C03
+//@   returns r
+//@   config M 2..10 : sm.MaxSeat = M, len(sm.SeatData) = M
+//@   requires SmBase(sm)
+//@   modifies nothing
+//@   ensures bounds: 0 <= len(r) && len(r) <= sm.MaxSeat && fresh(r)
+//@   ensures sound: forall(i, 0, sm.MaxSeat, i < len(r) ==> inRange(sm, r[i]) && !occ(sm, r[i]))
+//@   ensures distinct: forall(i, 0, sm.MaxSeat, forall(j, 0, sm.MaxSeat, i < j && j < len(r) ==> r[i] != r[j]))
+//@   ensures complete: forall(s, 0, sm.MaxSeat, !occ(sm, s) ==> exists(i, 0, sm.MaxSeat, i < len(r) && r[i] == s))
+
+//@ func (*seatManager).getOccupiedSeatIDs
+//@   property C04
+//@   returns r
+//@   config M 2..10 : sm.MaxSeat = M, len(sm.SeatData) = M
+//@   requires SmBase(sm)
+//@   modifies nothing
+//@   ensures bounds: 0 <= len(r) && len(r) <= sm.MaxSeat && fresh(r)
+//@   ensures sound: forall(i, 0, sm.MaxSeat, i < len(r) ==> inRange(sm, r[i]) && ActiveAt(sm, r[i]))
+//@   ensures nonempty: exists(s, 0, sm.MaxSeat, ActiveAt(sm, s)) ==> len(r) >= 1
+
+//@ func (*seatManager).randomOccupiedSeat
+//@   property C04
+//@   returns seat, err
+//@   config M 2..10 : sm.MaxSeat = M, len(sm.SeatData) = M
+//@   requires SmBase(sm)
+//@   modifies nothing
+//@   ensures some-active: err == nil ==> inRange(sm, seat) && ActiveAt(sm, seat)
+//@   ensures none-active: err != nil <==> activeCount(sm) == 0
+
+//@ func (*seatManager).firstOccupiedSeat
+//@   property C04
+//@   returns seat, err
+//@   config M 2..10 : sm.MaxSeat = M, len(sm.SeatData) = M
+//@   requires SmBase(sm)
+//@   modifies nothing
+//@   ensures some-active: err == nil ==> inRange(sm, seat) && ActiveAt(sm, seat)
+//@   ensures none-active: err != nil <==> activeCount(sm) == 0
+
+//@ func (*seatManager).newRandom
+//@   trusted random source: no effect on seat-manager state
+//@   modifies nothing
+
+// ---- initial positions (C04) ------------------------------------------------------------------
+
+//@ func (*seatManager).initPositions
+//@   property C04 C05
+//@   returns err
+//@   config M 2..10 : sm.MaxSeat = M, len(sm.SeatData) = M
+//@   requires SmWF(sm) && !sm.IsInit
+//@   modifies sm.DealerSeatID, sm.SBSeatID, sm.BBSeatID
+//@   ensures refused-iff-few-or-bad-rule: err != nil <==> activeCount(sm) < 2 || (sm.Rule != Rule_Default && sm.Rule != Rule_ShortDeck)
+//@   ensures refused-sets-nothing: err != nil ==> unchanged(sm.DealerSeatID, sm.SBSeatID, sm.BBSeatID)
+//@   ensures bb-dealt-in: err == nil && sm.Rule == Rule_Default ==> inRange(sm, sm.BBSeatID) && ActiveAt(sm, sm.BBSeatID)
+//@   ensures heads-up: err == nil && sm.Rule == Rule_Default && activeCount(sm) == 2
+//@             ==> sm.DealerSeatID == sm.SBSeatID && sm.DealerSeatID != sm.BBSeatID && inRange(sm, sm.DealerSeatID) && ActiveAt(sm, sm.DealerSeatID)
+//@   ensures sb-before-bb: err == nil && sm.Rule == Rule_Default && activeCount(sm) >= 3 ==> firstActiveCCW(sm, sm.BBSeatID, sm.SBSeatID) && sm.SBSeatID != -1
+//@   ensures dealer-before-sb: err == nil && sm.Rule == Rule_Default && activeCount(sm) >= 3 ==> firstActiveCCW(sm, sm.SBSeatID, sm.DealerSeatID) && sm.DealerSeatID != -1
+//@   ensures three-distinct: err == nil && sm.Rule == Rule_Default && activeCount(sm) >= 3
+//@             ==> sm.DealerSeatID != sm.SBSeatID && sm.DealerSeatID != sm.BBSeatID && sm.SBSeatID != sm.BBSeatID
+//@   ensures short-deck: err == nil && sm.Rule == Rule_ShortDeck ==> inRange(sm, sm.DealerSeatID) && ActiveAt(sm, sm.DealerSeatID) && sm.SBSeatID == -1 && sm.BBSeatID == -1
+
+// ---- public operations ------------------------------------------------------------------------
+
+//@ axiom len(SupportedRules) == 2
+//@ axiom SupportedRules[0] == Rule_Default && SupportedRules[1] == Rule_ShortDeck
+
+//@ func (*seatManager).InitPositions
+//@   property C04 C05 C16
+//@   returns err
+//@   config M 2..10 : sm.MaxSeat = M, len(sm.SeatData) = M
+//@   requires SmWF(sm) && !held(sm.mu)
+//@   modifies sm.DealerSeatID, sm.SBSeatID, sm.BBSeatID, sm.IsInit
+//@   ensures inv: SmWF(sm)
+//@   ensures twice-refused: old(sm.IsInit) ==> err != nil
+//@   ensures refused-changes-nothing: err != nil ==> unchanged(sm.DealerSeatID, sm.SBSeatID, sm.BBSeatID, sm.IsInit)
+//@   ensures refused-iff: !old(sm.IsInit) ==> (err != nil <==> activeCount(sm) < 2 || (sm.Rule != Rule_Default && sm.Rule != Rule_ShortDeck))
+//@   ensures success-sets-init: err == nil ==> sm.IsInit && !old(sm.IsInit) && activeCount(sm) >= 2
+//@   ensures bb-dealt-in: err == nil && sm.Rule == Rule_Default ==> ActiveAt(sm, sm.BBSeatID)
+//@   ensures heads-up: err == nil && sm.Rule == Rule_Default && activeCount(sm) == 2 ==> sm.DealerSeatID == sm.SBSeatID && sm.DealerSeatID != sm.BBSeatID && ActiveAt(sm, sm.DealerSeatID)
+//@   ensures three-distinct: err == nil && sm.Rule == Rule_Default && activeCount(sm) >= 3
+//@             ==> sm.DealerSeatID != sm.SBSeatID && sm.DealerSeatID != sm.BBSeatID && sm.SBSeatID != sm.BBSeatID
+//@             && firstActiveCCW(sm, sm.BBSeatID, sm.SBSeatID) && firstActiveCCW(sm, sm.SBSeatID, sm.DealerSeatID)
+
+//@ func (*seatManager).RotatePositions
+//@   property C04 C05 C08 C16
+//@   returns err
+//@   config M 2..10 : sm.MaxSeat = M, len(sm.SeatData) = M
+//@   requires SmWF(sm) && !held(sm.mu)
+//@   modifies sm.DealerSeatID, sm.SBSeatID, sm.BBSeatID, forall(s, 0, sm.MaxSeat, sm.SeatData[s].IsBetweenDealerBB)
+//@   ensures inv: SmWF(sm)
+//@   ensures before-init-refused: !sm.IsInit ==> err == ErrUnableToRotatePositions
+//@   ensures refused-moves-nothing: err != nil ==> unchanged(sm.DealerSeatID, sm.SBSeatID, sm.BBSeatID)
+//@   ensures refused-iff-few-dealt-in: sm.IsInit ==> (err != nil <==> activeCount(sm) < 2)
+//@   ensures bb-next-live: err == nil && sm.Rule == Rule_Default ==> sm.BBSeatID != -1 && firstLiveCW(sm, old(sm.BBSeatID), sm.BBSeatID) && ActiveAt(sm, sm.BBSeatID)
+//@   ensures stay-dealt-in: forall(s, 0, sm.MaxSeat, old(ActiveAt(sm, s)) ==> ActiveAt(sm, s))
+
+//@ func (*seatManager).JoinPlayers
+//@   property C03 C05 C16
+//@   returns err
+//@   config M 2..10 : sm.MaxSeat = M, len(sm.SeatData) = M
+//@   requires SmWF(sm) && !held(sm.mu) && 0 <= len(playerIDs) && len(playerIDs) <= 1
+//@   modifies forall(s, 0, sm.MaxSeat, sm.SeatData[s].IsIn)
+//@   loop 0 unroll 1
+//@   loop 1 unroll 1
+//@   ensures inv: SmWF(sm)
+//@   ensures unknown-refused: err != nil <==> exists(i, 0, 1, i < len(playerIDs) && !seated(sm, playerIDs[i]))
+//@   ensures refused-changes-nothing: err != nil ==> forall(s, 0, sm.MaxSeat, occ(sm, s) ==> unchanged(sm.SeatData[s].IsIn))
+//@   ensures joined: err == nil ==> forall(s, 0, sm.MaxSeat, occ(sm, s) ==>
+//@             (sm.SeatData[s].IsIn <==> old(sm.SeatData[s].IsIn) || exists(i, 0, 1, i < len(playerIDs) && sm.SeatData[s].ID == playerIDs[i])))
+
+//@ func (*seatManager).UpdatePlayerHasChips
+//@   property C03 C05 C16
+//@   returns err
+//@   config M 2..10 : sm.MaxSeat = M, len(sm.SeatData) = M
+//@   requires SmWF(sm) && !held(sm.mu)
+//@   modifies forall(s, 0, sm.MaxSeat, sm.SeatData[s].HasChips)
+//@   ensures inv: SmWF(sm)
+//@   ensures unknown-refused: err != nil <==> !seated(sm, playerID)
+//@   ensures updated: forall(s, 0, sm.MaxSeat, occ(sm, s) ==>
+//@             sm.SeatData[s].HasChips == ite(err == nil && sm.SeatData[s].ID == playerID, hasChips, old(sm.SeatData[s].HasChips)))
+
+//@ func NewSeatManager
+//@   property C03 C04
+//@   returns r
+//@   config M 2..10 : maxSeats = M
+//@   requires 2 <= maxSeats && maxSeats <= 10
+//@   modifies nothing
+//@   ensures inv: SmWF(r) && fresh(r) && !r.IsInit && r.MaxSeat == maxSeats && r.Rule == rule && !held(r.mu)
+//@   ensures empty: forall(s, 0, maxSeats, !occ(r, s))
+
+//@ func (*seatManager).getOccupiedPlayerSeatIDs
+//@   inline
+//@   loop 0 maporder asc
+
+//@ spec leaving(sm, playerIDs, s) = occ(sm, s) && exists(i, 0, sm.MaxSeat, i < len(playerIDs) && sm.SeatData[s].ID == playerIDs[i])
+
+//@ func (*seatManager).RemoveSeats
+//@   property C03 C16
+//@   returns err
+//@   config M 2..10 : sm.MaxSeat = M, len(sm.SeatData) = M
+//@   requires SmWF(sm) && !held(sm.mu) && 0 <= len(playerIDs) && len(playerIDs) <= sm.MaxSeat
+//@   modifies sm.SeatData[all]
+//@   loop 0 unroll M
+//@   loop 1 unroll M
+//@   ensures inv: SmWF(sm)
+//@   ensures unknown-refused: err != nil <==> exists(i, 0, sm.MaxSeat, i < len(playerIDs) && !old(seated(sm, playerIDs[i])))
+//@   ensures refused-changes-nothing: err != nil ==> forall(s, 0, sm.MaxSeat, sm.SeatData[s] == old(sm.SeatData[s]))
+//@   ensures exactly-those-freed: err == nil ==> forall(s, 0, sm.MaxSeat, sm.SeatData[s] == ite(old(leaving(sm, playerIDs, s)), nil, old(sm.SeatData[s])))
+
+//@ spec seatOf(m, id) = m[id]
+//@ spec newcomerAt(sm, id, s) = seatedAt(sm, id, s) && !sm.SeatData[s].IsIn && sm.SeatData[s].HasChips
+//@     && (sm.SeatData[s].IsBetweenDealerBB <==> sm.IsInit && sm.Rule == Rule_Default && between(sm, sm.DealerSeatID, sm.BBSeatID, s))
+
+//@ func (*seatManager).AssignSeats
+//@   property C03 C05 C16
+//@   returns err
+//@   config M 2..10 : sm.MaxSeat = M, len(sm.SeatData) = M
+//@   requires SmWF(sm) && !held(sm.mu)
+//@   modifies sm.SeatData[all]
+//@   loop 0 unroll M
+//@   loop 2 unroll M
+//@   ensures inv: SmWF(sm)
+//@   ensures refused-changes-nothing: err != nil ==> forall(s, 0, sm.MaxSeat, sm.SeatData[s] == old(sm.SeatData[s]))
+//@   ensures out-of-range-refused: any(id, indom(playerSeatIDs, id) && !inRange(sm, playerSeatIDs[id])) ==> err != nil
+//@   ensures taken-refused: any(id, indom(playerSeatIDs, id) && inRange(sm, playerSeatIDs[id]) && old(occ(sm, playerSeatIDs[id]))) ==> err != nil
+//@   ensures already-seated-refused: any(id, indom(playerSeatIDs, id) && old(seated(sm, id))) ==> err != nil
+//@   ensures duplicate-seat-refused: any(a, any(b, indom(playerSeatIDs, a) && indom(playerSeatIDs, b) && a != b && playerSeatIDs[a] == playerSeatIDs[b])) ==> err != nil
+//@   ensures seated: err == nil ==> all(id, indom(playerSeatIDs, id) ==> seatedAt(sm, id, playerSeatIDs[id]))
+//@   ensures newcomers: err == nil ==> forall(s, 0, sm.MaxSeat, sm.SeatData[s] != old(sm.SeatData[s])
+//@             ==> occ(sm, s) && fresh(sm.SeatData[s]) && newcomerAt(sm, sm.SeatData[s].ID, s) && indom(playerSeatIDs, sm.SeatData[s].ID) && playerSeatIDs[sm.SeatData[s].ID] == s)
+//@   ensures others-untouched: err == nil ==> forall(s, 0, sm.MaxSeat, sm.SeatData[s] == old(sm.SeatData[s]) || any(id, indom(playerSeatIDs, id) && playerSeatIDs[id] == s))
